@@ -20,6 +20,20 @@ impl Args {
     pub fn str(&self, key: &str, default: &str) -> String { self.get(key).unwrap_or(default).to_string() }
 }
 
+struct DiscardLogger;
+impl log::Log for DiscardLogger {
+    fn enabled(&self, _: &log::Metadata) -> bool { true }
+    fn log(&self, record: &log::Record) {
+        // the record is rendered (every Display / Debug implementation involved runs) into a writer that throws the text away
+        struct Null;
+        impl std::fmt::Write for Null { fn write_str(&mut self, _: &str) -> std::fmt::Result { Ok(()) } }
+        let _ = std::fmt::write(&mut Null, *record.args());
+        LOG_RECORDS.fetch_add(1, std::sync::atomic::Ordering::Relaxed);
+    }
+    fn flush(&self) {}
+}
+pub static LOG_RECORDS: std::sync::atomic::AtomicU64 = std::sync::atomic::AtomicU64::new(0);
+
 fn main() {
     let argv: Vec<String> = std::env::args().collect();
     if argv.len() < 2 {
@@ -37,6 +51,10 @@ fn main() {
         } else { i += 1; }
     }
     let args = Args(map);
+    // a logger that accepts every level and discards the record: the arguments of the crate's debug!/info! lines are then evaluated
+    // (as they are in any deployment with logging switched on), so a side effect hidden in a log line shows in the monitors
+    static SINK: DiscardLogger = DiscardLogger;
+    if log::set_logger(&SINK).is_ok() { log::set_max_level(log::LevelFilter::Trace); }
     // keep panics of the system under test out of the way: they are caught and classified by the monitors
     let verbose = args.get("verbose").is_some();
     std::panic::set_hook(Box::new(move |info| {
